@@ -378,7 +378,14 @@ fn op_cid_parse(a: &[&str]) -> Res {
     let s = String::from_utf8(arg_bytes(a, 0)?).map_err(|_| "utf8")?;
     match ChannelId::from_str(&s) {
         Ok(c) => Ok(vec!["ok".into(), hex(&c.to_bytes())]),
-        Err(_) => Ok(vec!["error".into()]),
+        Err(e) => {
+            // the error type is not exported; its Display text distinguishes the two variants
+            let m = e.to_string();
+            match m.strip_prefix("expected 32-byte channel id (received ") {
+                Some(rest) => Ok(vec!["error".into(), "length".into(), rest.split(' ').next().unwrap_or("").to_string()]),
+                None => Ok(vec!["error".into(), "decode".into()]),
+            }
+        }
     }
 }
 fn op_ctx_new(a: &[&str]) -> Res {
